@@ -14,10 +14,16 @@ import (
 	"bufio"
 	"fmt"
 	"os"
+	"runtime"
 	"sort"
 	"strconv"
+	"sync/atomic"
 	"testing"
+	"time"
 )
+
+// verifProgress: bumped by the modes once per scenario (watchdog)
+var verifProgress int64
 
 type vctx struct {
 	t    *testing.T
@@ -88,5 +94,28 @@ func TestVerif(t *testing.T) {
 	defer c.meta.Flush()
 	defer c.ops.Flush()
 	defer c.out.Flush()
+	// watchdog (real time, outside any synctest bubble): a scenario in which library code spins without ever blocking
+	// never becomes quiescent, so the controller would wait for ever
+	go func() {
+		last, since := int64(-1), time.Now()
+		for {
+			time.Sleep(5 * time.Second)
+			cur := atomic.LoadInt64(&verifProgress)
+			if cur == 0 {
+				continue // this mode does not report progress
+			}
+			if cur != last {
+				last, since = cur, time.Now()
+				continue
+			}
+			if time.Since(since) > 90*time.Second {
+				fmt.Printf("HANG no progress for 90s in mode %s after %d scenarios: a goroutine of the library runs without ever blocking (busy loop)\n", mode, cur)
+				buf := make([]byte, 1<<16)
+				n := runtime.Stack(buf, true)
+				fmt.Printf("%s\n", buf[:n])
+				os.Exit(3)
+			}
+		}
+	}()
 	f(c)
 }
